@@ -1157,6 +1157,8 @@ func (mgr *Manager) UpdateTag(name string, operation UpdateTagOperation) error {
 	info := updateTagOperationInfo{convertersUpdated: false}
 	operation(&info)
 	maxUsedStreamID := uint64(0)
+	// stream id 0 is a valid id, maxUsedStreamID == 0 does not mean "no marks given"
+	marksUpdated := false
 	if len(info.markTagAddStreams) != 0 || len(info.markTagDelStreams) != 0 {
 		if !(strings.HasPrefix(name, "mark/") || strings.HasPrefix(name, "generated/")) {
 			return fmt.Errorf("tag %q is not of type 'mark' or 'generated'", name)
@@ -1176,6 +1178,7 @@ func (mgr *Manager) UpdateTag(name string, operation UpdateTagOperation) error {
 			return nil
 		}
 		maxUsedStreamID--
+		marksUpdated = true
 	}
 	var newTag *tag
 	if info.query != nil {
@@ -1312,7 +1315,7 @@ func (mgr *Manager) UpdateTag(name string, operation UpdateTagOperation) error {
 				}
 				mgr.startConverterJobIfNeeded()
 			}
-			if maxUsedStreamID != 0 {
+			if marksUpdated {
 				if maxUsedStreamID >= mgr.nextStreamID {
 					return fmt.Errorf("unknown stream id %d", maxUsedStreamID)
 				}
